@@ -587,6 +587,12 @@ def _run_session_once(session: Any, mode: str, api_data: Any, extenders: Any, st
     except OSError:
         pass
     os.environ.pop(F.LOG_ENV, None)
+    if mode == "mp":
+        # a MULTIPROCESSING run leaves its queues / manager proxies (pipes) to the garbage collector; thousands of such runs in one
+        # check process (thorough tier) otherwise run into the file-descriptor limit before a collection happens
+        import gc
+
+        gc.collect()
     return rr
 
 
